@@ -151,7 +151,9 @@ func checkC19(p *Prog, l *Ledger) {
 					}
 				case "true":
 					classes["script"]++
-					if !calls("main.runFile") || calls("main.runPrompt") || hasOp(w, "exit", nil) {
+					if msg {
+						l.Violate("C19/S1-status", "main.main#script", firstPos(w), "main itself writes a message although the script argument is valid (stdout must carry only what the program prints): "+word)
+					} else if !calls("main.runFile") || calls("main.runPrompt") || hasOp(w, "exit", nil) {
 						l.Violate("C19/S1-status", "main.main#script", firstPos(w), "one .bn argument must run exactly that file: "+word)
 					} else if !hasOp(w, "call", func(e *Event) bool { return e.Args[0] == "main.runFile" && len(e.Args) > 1 && e.Args[1] == "global:os.Args[1]" }) {
 						l.Violate("C19/S1-status", "main.main#script", firstPos(w), "runFile is not given the script argument: "+word)
@@ -434,7 +436,9 @@ func checkStreams(p *Prog, l *Ledger) {
 				switch {
 				case strings.HasPrefix(name, "fmt.Print"):
 					n++
-					if why, ok := allowedStdout[fk]; ok {
+					if fnPkgName(fn) == "main" && fk != "main.run" && fk != "main.runFile" {
+						l.Discharge(rule, fk+"#"+name, p.InstrPos(in), "usage message / prompt written by package main (the path rules of S1 require: message then Exit(64) on bad usage, nothing printed on the script path)", true)
+					} else if why, ok := allowedStdout[fk]; ok {
 						l.Discharge(rule, fk+"#"+name, p.InstrPos(in), why, true)
 					} else {
 						l.Violate(rule, fk+"#"+name, p.InstrPos(in), "writes to stdout from "+fk+": stdout must carry only what the program printed, prompts and usage messages")
